@@ -1287,3 +1287,404 @@ def A9(ctx, family="avx2", timeout_s=600):
     if o is not None:
         raise Inconclusive("A9: memory-safety obligation fails: %s" % o.what)
     return L.finish()
+
+
+# ---------------------------------------------------------------------------------------------------------------
+# String decoder: S1–S4
+
+WIN = 44           # bytes a decoder iteration may look at, relative to its cursor
+PAD = b'"' + b"\x00" * 7 + b'"""' + b"\x00" * 160      # keeps native replays of _parse_string (no length bound) terminating
+
+
+def _ps_heads(prog):
+    """loop heads of the two decoder functions"""
+    v = [i for i in prog.func_instrs("_parse_string_validate_only")
+         if i.mnem[0] == "j" and i.mnem != "jmp" and isinstance(i.ops[0], lift.Label) and i.ops[0].addr < i.addr]
+    v.sort(key=lambda i: i.ops[0].addr)        # the outer loop's head is the lowest back-edge target
+    hv = prog.instrs.get(v[0].ops[0].addr) if v else None
+    if hv is None or hv.mnem != "vmovdqu" or not isinstance(hv.ops[1], Mem):
+        raise Inconclusive("S: cannot identify the loop head of _parse_string_validate_only")
+    c = [i for i in prog.func_instrs("_parse_string") if i.mnem == "vmovdqu" and isinstance(i.ops[1], Mem) and i.ops[1].base is not None
+         and i.ops[1].base.name == "r13" and i.ops[1].index is None and i.ops[1].disp == 0]
+    if len(c) != 1:
+        raise Inconclusive("S: cannot identify the loop head of _parse_string (32-byte load from [r13])")
+    return v[0].ops[0].addr, c[0].addr
+
+
+class StrRef:
+    """REF-STR step over a symbolic window W (list of WIN byte terms)"""
+
+    def __init__(self, W):
+        self.W = W
+        self.has, self.ev = refs.first_event(W, 32)
+        big = join(W)
+        sh = z3.LShR(big, z3.ZeroExt(big.size() - 64, self.ev) << 3)
+        self.e = [z3.Extract(8 * j + 7, 8 * j, sh) for j in range(12)]
+        self.E = refs.STR_escape(self.e)
+        self.is_quote = z3.And(self.has, self.e[0] == 0x22)
+        self.is_esc = z3.And(self.has, self.e[0] == 0x5C)
+        self.none = z3.Not(self.has)
+        self.dontcare = z3.And(self.is_esc, self.E["dontcare"])
+        self.reject = z3.And(self.is_esc, z3.Not(self.E["ok"]), z3.Not(self.E["dontcare"]))
+        self.cont = z3.Or(self.none, z3.And(self.is_esc, self.E["ok"]))
+        self.adv = z3.If(self.none, BV(32, 64), self.ev + self.E["consumed"])
+        self.dadv = z3.If(self.none, BV(32, 64), self.ev + self.E["outlen"])
+        lt30 = lambda b: z3.ULT(b, 0x30)
+        # class of known defect F3: a hex-digit position of the \u escape at the event holds a byte 0x00..0x2f
+        self.cls_f3 = z3.And(self.is_esc, self.E["is_u"],
+                             z3.Or(*([lt30(self.e[j]) for j in range(2, 6)] +
+                                     [z3.And(self.E["ok1"], self.E["hi_sur"], self.e[6] == 0x5C, self.e[7] == 0x75, lt30(self.e[j])) for j in range(8, 12)])))
+
+    def expected_out(self, p):
+        """reference output byte at position p (python int) of this step's output"""
+        o = self.E["out"]
+        d = BV(p, 64) - self.ev
+        esc_b = z3.If(d == 0, o[0], z3.If(d == 1, o[1], z3.If(d == 2, o[2], o[3])))
+        return z3.If(z3.ULT(BV(p, 64), self.ev), self.W[p] if p < len(self.W) else BV(0, 8), esc_b)
+
+
+CLASSES = {"u_hex_digit_below_0x30": "cls_f3"}     # exclusion predicates a known_findings entry may name
+
+
+def _str_replay_request(op, wbytes):
+    buf = bytes(wbytes) + PAD
+    if op == "psv":
+        return {"op": "psv", "fam": "avx2", "buf": buf, "a": [64, 0, 0]}
+    return {"op": "ps", "fam": "avx2", "buf": buf, "a": [len(buf) + 64]}
+
+
+def _str_replay(q):
+    """native decoder on the witness string vs the concrete REF-STR: reproduced iff they disagree"""
+    n = replay.native([q])[0]
+    buf = bytes(q["buf"])
+    status, slen, out = refs.str_py(buf)
+    det = "input=%r native r=%s" % (buf[:WIN + 1], n["r"])
+    if status in ("dontcare", "unterminated"):
+        return False, det + " reference=%s (cannot judge)" % status
+    if q["op"] == "psv":
+        res, sl, dl = n["r"]
+        if status == "accept":
+            bad = not (res != 0 and sl == slen and dl == len(out))
+            return bad, det + " reference=accept str_len=%d dst_len=%d" % (slen, len(out))
+        return res != 0, det + " reference=reject"
+    res, ln = n["r"]
+    if status == "accept":
+        bad = not (res != 0 and ln == len(out) and n["out"][:ln] == out)
+        return bad, det + " out=%r reference=accept out=%r" % (n["out"][:ln], out)
+    return res != 0, det + " reference=reject"
+
+
+def _class_loop(L, ctx, f, claim, hyp, SR, excl, op, replay_hyp):
+    """refute claim on path f; on sat: replay, classify (known finding / violation), exclude the class and repeat.
+    returns False when an unclassifiable violation was reported (stop), True otherwise"""
+    while True:
+        m = L.refute(f, claim, hyp + [z3.Not(x) for x in excl.values()])
+        if m is None:
+            return True
+        # a replayable instance: first iteration of a call (cursor = src, nothing decoded yet), benign bytes after the escape
+        benign = [z3.Implies(z3.UGE(BV(j, 64), SR.ev + 12), SR.W[j] == 0x78) for j in range(WIN)]
+        base = hyp + [z3.Not(x) for x in excl.values()] + replay_hyp
+        m2 = L.refute(f, claim, base + benign) or L.refute(f, claim, base)
+        if m2 is None:
+            raise Inconclusive("%s: counterexample exists only away from the first iteration; cannot be replayed natively; model=%s"
+                               % (L.name, [mval(m, b) for b in SR.W]))
+        wb = bytes(mval(m2, b) for b in SR.W)
+        cls = [name for name, attr in CLASSES.items() if mval(m2, getattr(SR, attr))]
+        q = _str_replay_request(op, wb)
+        what = "decoder step differs from REF-STR on %r" % wb
+        w = L.counterexample(what, {"request": _jsonable(q), "classes": cls}, lambda w_: _str_replay(q))
+        k = None
+        for kn in known_for(ctx, L.name):
+            if kn.get("exclusion") in cls:
+                k = kn
+        if k is not None:
+            ctx.report_known(k)
+            if L.verdict == "unsat":
+                L.verdict = "known-finding"
+        else:
+            ctx.report_violation("%s: %s%s" % (L.name, what, (" [class %s]" % ",".join(cls)) if cls else ""), w)
+            L.verdict = "sat"
+        if not cls:
+            return False
+        for c in cls:
+            excl[c] = getattr(SR, CLASSES[c])
+
+
+def _validate_step_setup(L):
+    """runs the real prologue of _parse_string_validate_only to the loop head, then generalises the loop-carried
+    registers: cursor = src + off with the window at the cursor a concrete-base region of WIN symbolic bytes"""
+    ex, prog = L.ex, L.prog
+    head, _ = _ps_heads(prog)
+    st = fresh_state()
+    W = [z3.BitVec("w%02d" % i, 8) for i in range(WIN)]
+    win = st.add_region("win", WIN, writable=False, default="none", data=W)
+    maxs, off, dlen = z3.BitVec("maxStringSize", 64), z3.BitVec("off", 64), z3.BitVec("dlen", 64)
+    c = lambda n, v: BV(st.cell(n, v), 64)
+    pm, ps, pd = c("maxs", maxs), c("slen", z3.BitVec("slen_init", 64)), c("dlen", z3.BitVec("dlen_init", 64))
+    set_args(st, [BV(win.base, 64), pm, ps, pd])
+    st.pc = prog.entry("_parse_string_validate_only")
+    fins = ex.run(st, stop_at=[head])
+    heads = [f for f in fins if f.exit == "stop:%x" % head]
+    rets = [f for f in fins if f.exit == "ret"]
+    if len(heads) != 1 or len(rets) != 1:
+        raise Inconclusive("S1: unexpected prologue structure (%s)" % [f.exit for f in fins])
+    # maxStringSize == 0: immediate failure (S2 entry obligation)
+    r = rets[0]
+    L.paths += 1
+    L.reach(r, "max0")
+    if L.refute(r, z3.And(maxs == 0, get_result(r, 4) == 0)) is not None:
+        raise Inconclusive("S1: the maxStringSize == 0 exit does not return 0")
+    h = heads[0]
+    if L.refute(h, z3.And(h.regs["r13"] == BV(win.base, 64), h.regs["rax"] == h.regs["r13"], h.regs["rsi"] == 0, h.regs["r14"] == 0, maxs != 0)) is not None:
+        raise Inconclusive("S1: prologue does not establish cursor = src, lengths = 0 at the loop head")
+    h.path = []
+    h.obligations = []
+    h.regs["rdi"] = simp(BV(win.base, 64) - off)
+    h.regs["rsi"] = off
+    h.regs["r14"] = dlen
+    for r_ in ("rbx", "r12", "r15", "r8"):
+        h.regs[r_] = z3.BitVec("h_%s_s1" % r_, 64)
+    for f_ in h.flags:
+        h.flags[f_] = None
+    hyp = [z3.ULT(off, maxs), z3.ULT(maxs, 1 << 62), z3.ULE(dlen, off)]
+    return head, h, W, win, maxs, off, dlen, hyp
+
+
+INV_REGS_V = ["rdi", "r11", "rdx", "rcx", "r9", "r10", "rbp", "zmm0", "zmm1"]
+
+
+def S1(ctx):
+    """_parse_string_validate_only: one iteration from an arbitrary cursor == REF-STR step; loads inside the window"""
+    L = LemmaRun(ctx, "S1", bound="one decoder iteration from an arbitrary cursor (off < maxStringSize), %d symbolic window bytes; "
+                                  "inductive over iterations" % WIN)
+    ex = L.ex
+    head, h, W, win, maxs, off, dlen, hyp = _validate_step_setup(L)
+    ctx.assume("S1: loop-head invariant: table pointers/constants as left by the real prologue, rdi = src, rsi = cursor-src < maxStringSize, "
+               "r14 = decoded length so far; the window [cursor, cursor+%d) is readable (S5/S6: parseString pads to maxStringSize+64)" % WIN)
+    ctx.assume("S1: a return of 0 when the cursor reaches maxStringSize without a closing quote is the specified cut-off")
+    ctx.assume("REF-STR don't-cares: ill-formed surrogate pairs and lone low surrogates (DESIGN A.5)")
+    init = dict(h.regs)
+    ex.assumptions = list(hyp)
+    h.pc = head
+    fins = ex.run(h, stop_at=[head])
+    ex.assumptions = []
+    SR = StrRef(W)
+    excl = {}
+    wbase = BV(win.base, 64)
+    for f in fins:
+        L.paths += 1
+        L.reach(f, "step.%s" % ("ret" if f.exit == "ret" else "head"), hyp)
+        if f.exit == "ret":
+            res, sl, dl = get_result(f, 4), f.read_cell("slen"), f.read_cell("dlen")
+            claim = z3.Or(SR.dontcare,
+                          z3.And(SR.is_quote, res != 0, sl == off + SR.ev, dl == dlen + SR.ev),
+                          z3.And(res == 0, z3.Or(SR.reject, z3.And(SR.cont, z3.UGE(off + SR.adv, maxs)))))
+        else:
+            inv = [f.regs[r].eq(init[r]) or (f.regs[r] == init[r]) for r in INV_REGS_V]
+            inv = [z3.BoolVal(True) if x is True else x for x in inv]
+            claim = z3.Or(SR.dontcare,
+                          z3.And(SR.cont, f.regs["r13"] == wbase + SR.adv, f.regs["rax"] == f.regs["r13"], f.regs["rsi"] == off + SR.adv,
+                                 f.regs["r14"] == dlen + SR.dadv, z3.ULT(off + SR.adv, maxs), *inv))
+        if not _class_loop(L, ctx, f, claim, hyp, SR, excl, "psv", [off == 0, dlen == 0, maxs == 64]):
+            return L.finish()
+        o, m = L.bounds(f, hyp)
+        if o is not None:
+            ctx.report_violation("S1: memory-safety obligation fails: %s (load outside [cursor, cursor+%d))" % (o.what, WIN),
+                                 {"window": bytes(mval(m, b) for b in W).hex()})
+            L.verdict = "sat"
+            return L.finish()
+    if excl:
+        L.notes.append("re-queried with exclusion(s) %s: no other difference" % sorted(excl))
+    return L.finish()
+
+
+def _copy_step_states(L):
+    """_parse_string: (entry run to the loop head / return) and (one iteration from the loop head), both over the same
+    symbolic window W at the source cursor and a write-log window at the destination cursor"""
+    ex, prog = L.ex, L.prog
+    _, head = _ps_heads(prog)
+    W = [z3.BitVec("w%02d" % i, 8) for i in range(WIN)]
+
+    def mk():
+        st = fresh_state()
+        win = st.add_region("win", WIN, writable=False, default="none", data=W)
+        dst = st.add_region("dstw", 80, kind="log")
+        loc = BV(st.cell("loc", z3.BitVec("loc_init", 64)), 64)
+        set_args(st, [BV(win.base, 64), BV(dst.base, 64), loc])
+        return st, win, dst
+
+    st, win, dst = mk()
+    st.pc = prog.entry("_parse_string")
+    first = ex.run(st, stop_at=[head])
+    heads = [f for f in first if f.exit != "ret"]
+    if not heads:
+        raise Inconclusive("S3: no path from the entry of _parse_string reaches the loop head")
+    INV = ["rdx", "r12", "r9", "r10", "r15", "rbp", "zmm0", "zmm1", "rax"]
+    ref = heads[0]
+    for f in heads[1:]:
+        for r in INV:
+            if not f.regs[r].eq(ref.regs[r]):
+                raise Inconclusive("S3: loop-invariant register %s differs between prologue paths" % r)
+    # generalised loop-head state: same machine state, fresh window/log, cursors at the window bases
+    g, gwin, gdst = mk()
+    for r in INV:
+        g.regs[r] = ref.regs[r]
+    g.regs["rsp"] = ref.regs["rsp"]
+    gs, rs = g.region("stack"), ref.region("stack")
+    gs.data, gs.words = dict(rs.data), dict(rs.words)
+    g.regions[[k for k, v in g.regions.items() if v.name == "loc"][0]].data = dict(ref.region("loc").data)
+    g.regs["r13"] = BV(gwin.base, 64)
+    g.regs["rsi"] = BV(gdst.base, 64)
+    for r in ("rdi", "rcx", "r14", "r11", "r8", "rbx"):
+        g.regs[r] = z3.BitVec("h_%s_s3" % r, 64)
+    for f_ in g.flags:
+        g.flags[f_] = None
+    ginit = dict(g.regs)
+    g.pc = head
+    step = ex.run(g, stop_at=[head])
+    return head, W, first, step, INV, ref, ginit
+
+
+def _dst_bytes(f, n):
+    """symbolic content of the destination window after the path's stores: list of n byte terms (None = never written)"""
+    lg = f.region("dstw").log
+    out = []
+    for p in range(n):
+        cur = None
+        for off, nb, v, _ in lg:
+            if z3.is_bv_value(off):
+                o = off.as_long()
+                if o <= p < o + nb:
+                    cur = simp(z3.Extract(8 * (p - o) + 7, 8 * (p - o), v))
+            else:
+                if nb != 1:
+                    raise Inconclusive("S3: multi-byte store at a symbolic destination offset")
+                cur = z3.If(off == p, v, cur if cur is not None else z3.BitVec("dst_unwritten_%d" % p, 8))
+        out.append(cur)
+    return out
+
+
+def S3(ctx):
+    """_parse_string (copy): entry block and one iteration from the loop head == REF-STR step incl. the bytes written;
+    stores below dst cursor' + 32"""
+    L = LemmaRun(ctx, "S3", bound="entry block + one iteration from an arbitrary (src cursor, dst cursor), %d symbolic window bytes" % WIN)
+    head, W, first, step, INV, ref, ginit = _copy_step_states(L)
+    ctx.assume("S3: loop-head invariant: constants/table pointers as left by the real prologue; [src cursor, +%d) readable; "
+               "destination has >= 32 bytes of slack beyond the decoded length (S5/S6)" % WIN)
+    ctx.assume("S3: _parse_string has no length bound: termination relies on the prior successful _parse_string_validate_only (S4 links the two)")
+    SR = StrRef(W)
+    excl = {}
+    NOUT = 36
+    for kind, fins in (("entry", first), ("step", step)):
+        for f in fins:
+            L.paths += 1
+            L.reach(f, "%s.%s" % (kind, "ret" if f.exit == "ret" else "head"))
+            wbase = BV(f.region("win").base, 64)
+            dbase = BV(f.region("dstw").base, 64)
+            db = _dst_bytes(f, NOUT)
+            lg = f.region("dstw").log
+
+            def written_ok(count):
+                cs = []
+                for p in range(NOUT):
+                    if db[p] is None:
+                        cs.append(z3.UGE(BV(p, 64), count))
+                    else:
+                        cs.append(z3.Implies(z3.ULT(BV(p, 64), count), db[p] == SR.expected_out(p)))
+                return z3.And(*cs)
+
+            if f.exit == "ret":
+                res, loc = get_result(f, 3), f.read_cell("loc")
+                claim = z3.Or(SR.dontcare,
+                              z3.And(SR.is_quote, res != 0, loc == dbase + SR.ev, written_ok(SR.ev)),
+                              z3.And(res == 0, SR.reject))
+                newd = z3.If(res != 0, loc, dbase)
+            else:
+                inv = [z3.BoolVal(True) if f.regs[r].eq(ref.regs[r]) else f.regs[r] == ref.regs[r] for r in INV]
+                claim = z3.Or(SR.dontcare,
+                              z3.And(SR.cont, f.regs["r13"] == wbase + SR.adv, f.regs["rsi"] == dbase + SR.dadv, written_ok(SR.dadv), *inv))
+                newd = f.regs["rsi"]
+            if not _class_loop(L, ctx, f, claim, [], SR, excl, "ps", []):
+                return L.finish()
+            # every store of the step lies in [dst cursor, dst cursor' + 32)
+            hy = [z3.Not(x) for x in excl.values()]
+            for off, nb, v, _ in lg:
+                m = L.refute(f, z3.Or(SR.dontcare, z3.ULE(off + nb, (newd - dbase) + 32)), hy)
+                if m is not None:
+                    ctx.report_violation("S3: a store of the step ends beyond dst cursor' + 32", {"window": bytes(mval(m, b) for b in W).hex()})
+                    L.verdict = "sat"
+                    return L.finish()
+            o, m = L.bounds(f, hy)
+            if o is not None:
+                ctx.report_violation("S3: memory-safety obligation fails: %s" % o.what, {"window": bytes(mval(m, b) for b in W).hex()})
+                L.verdict = "sat"
+                return L.finish()
+    if excl:
+        L.notes.append("re-queried with exclusion(s) %s: no other difference" % sorted(excl))
+    return L.finish()
+
+
+def S4(ctx):
+    """validate-only and copy agree step by step (same advance, decoded length = bytes written, same verdict), and
+    str_length != dst_length <=> some escape was decoded (needCopy)"""
+    L = LemmaRun(ctx, "S4", bound="one iteration of each decoder on the same %d-byte window, arbitrary cursors" % WIN)
+    ex = L.ex
+    headv, h, Wv, win, maxs, off, dlen, hyp = _validate_step_setup(L)
+    ex.assumptions = list(hyp)
+    h.pc = headv
+    vf = ex.run(h, stop_at=[headv])
+    ex.assumptions = []
+    headc, Wc, first, step, INV, ref, ginit = _copy_step_states(L)
+    same = [a == b for a, b in zip(Wv, Wc)]
+    SR = StrRef(Wv)
+    ctx.assume("S4: compared per iteration on the same window; the validate-only cut-off (cursor >= maxStringSize) has no counterpart in the copy "
+               "routine and is excluded from the comparison")
+    wv = BV(win.base, 64)
+    npairs = 0
+    for a in vf:
+        for b in step:
+            both = hyp + same + list(b.path)
+            if L.reach(a, "pair", both) is None:
+                continue
+            npairs += 1
+            L.paths += 1
+            wbase, dbase = BV(b.region("win").base, 64), BV(b.region("dstw").base, 64)
+            if a.exit == "ret":
+                resv, sl, dl = get_result(a, 4), a.read_cell("slen"), a.read_cell("dlen")
+                if b.exit == "ret":
+                    resc, loc = get_result(b, 3), b.read_cell("loc")
+                    claim = z3.Or(z3.And(resv != 0, resc != 0, sl - off == dl - dlen, dl - dlen == loc - dbase),
+                                  z3.And(resv == 0, resc == 0))
+                else:
+                    # validate-only gave up: only legitimate against a continuing copy step at the maxStringSize cut-off
+                    claim = z3.And(resv == 0, z3.UGE(off + (b.regs["r13"] - wbase), maxs))
+            else:
+                if b.exit == "ret":
+                    claim = z3.BoolVal(False)
+                else:
+                    adv_v, adv_c = a.regs["r13"] - wv, b.regs["r13"] - wbase
+                    dv, dc = a.regs["r14"] - dlen, b.regs["rsi"] - dbase
+                    claim = z3.And(adv_v == adv_c, dv == dc, z3.UGE(adv_v, dv), (adv_v == dv) == SR.none)
+            m = L.refute(a, claim, both)
+            if m is not None:
+                wb = bytes(mval(m, x) for x in Wv)
+                q1, q2 = _str_replay_request("psv", wb), _str_replay_request("ps", wb)
+
+                def rp(w_):
+                    n1, n2 = replay.native([q1, q2])
+                    r1, s1, d1 = n1["r"]
+                    r2, l2 = n2["r"]
+                    differ = (r1 != 0) != (r2 != 0) or (r1 != 0 and d1 != l2)
+                    return differ, "validate r=%s copy r=%s" % (n1["r"], n2["r"])
+                L.violation("validate-only and copy decoders disagree on %r" % wb, {"window": wb.hex()}, rp)
+                return L.finish()
+    if npairs == 0:
+        raise Inconclusive("S4: no jointly feasible path pair")
+    # needCopy for the accepting step: lengths equal (no escape in this step)
+    for a in vf:
+        if a.exit == "ret":
+            resv, sl, dl = get_result(a, 4), a.read_cell("slen"), a.read_cell("dlen")
+            m = L.refute(a, z3.Implies(resv != 0, sl - off == dl - dlen), hyp)
+            if m is not None:
+                raise Inconclusive("S4: accepting step changes str_length and dst_length by different amounts")
+    return L.finish()
